@@ -64,7 +64,8 @@ def run_small(key):
     x_c = tensor(alph, shape, idx)
     K, D = shape[:2]
     nd = 4
-    power = (np.abs(x_c) ** 2).sum(1, keepdims=True)          # (K,1,F,T)
+    # exact on the Gaussian-integer alphabet (|1+1j|**2 via hypot is 2.0000000000000004: spurious tie-break)
+    power = (x_c.real ** 2 + x_c.imag ** 2).sum(1, keepdims=True)          # (K,1,F,T)
     tot = power.sum(0, keepdims=True)
     evals = 0
     for s in range(nd):
